@@ -71,7 +71,7 @@ class Tree:
     def helper_graph(self, d, dotted_pkg=None):
         """a small import graph of helper modules below directory d; -> import line for the importer"""
         rnd = self.rnd
-        kind = rnd.choice(["single", "chain", "cycle", "diamond", "package", "explicit", "nested_pkg", "missing"])
+        kind = rnd.choice(["single", "chain", "cycle", "diamond", "package", "explicit", "nested_pkg", "missing", "reexport_twice", "explicit_diamond"])
         self.tags.append("graph:" + kind)
         m1 = self.uniq("helpers_")
         rel_or_abs = rnd.choice(["rel", "abs"]) if dotted_pkg is not None or True else "rel"
@@ -125,6 +125,21 @@ class Tree:
             self.add(d + m1 + "/" + inner + ".py", tm)
             self.add(d + m1 + "_up.py", tu)
             return "from .%s.%s import *" % (m1, inner)
+        if kind == "reexport_twice":
+            # the importer names, in TWO statements, fixtures that the imported module only re-exports
+            m2 = self.uniq("helpers_")
+            t2, n2 = self.module_text(extra_names=[self.uniq("named_"), self.uniq("named_")])
+            t1, _ = self.module_text(imports=["from .%s import *" % m2])
+            self.add(d + m2 + ".py", t2); self.add(d + m1 + ".py", t1)
+            return imp(m1, star=False, names=[n2[-1]]) + "\n" + imp(m1, star=False, names=[n2[-2]])
+        if kind == "explicit_diamond":
+            # two modules that re-export the same third one; the importer names one fixture from each
+            m2, m3 = self.uniq("helpers_"), self.uniq("helpers_")
+            t3, n3 = self.module_text(extra_names=[self.uniq("named_"), self.uniq("named_")])
+            t1, _ = self.module_text(imports=["from .%s import *" % m3])
+            t2, _ = self.module_text(imports=["from .%s import *" % m3])
+            self.add(d + m3 + ".py", t3); self.add(d + m1 + ".py", t1); self.add(d + m2 + ".py", t2)
+            return imp(m1, star=False, names=[n3[-1]]) + "\n" + imp(m2, star=False, names=[n3[-2]])
         if kind == "explicit":
             t, names = self.module_text(extra_names=[self.uniq("named_")])
             self.add(d + m1 + ".py", t + "def plain_helper():\n    return 0\n")
